@@ -10,6 +10,7 @@ import (
 	"pgregory.net/rapid"
 
 	"verifharness/bn"
+	"verifharness/model"
 	"verifharness/run"
 )
 
@@ -70,23 +71,32 @@ func c13ObjectProgram(rt *rapid.T) (string, []string) {
 		keys = []string{"সম\u09df", "zeta", "সম\u09af\u09bc", "caf\u00e9", "k", "cafe\u0301", "ক\u09cb", "ক\u09c7\u09be"}
 	}
 	var order []string
+	// a property name may be written more than once in one literal: every
+	// initialiser still runs, in source order, and the last one gives the value
+	repeatKeys := rapid.Bool().Draw(rt, "repeatKeys")
 	nObj := rapid.IntRange(1, 3).Draw(rt, "nobj")
 	for o := 0; o < nObj; o++ {
 		n := rapid.IntRange(2, 6).Draw(rt, "nkeys")
+		if repeatKeys {
+			n += rapid.IntRange(3, 6).Draw(rt, "extraKeys")
+		}
 		start := rapid.IntRange(0, len(keys)-1).Draw(rt, "start")
 		parts := []string{}
 		for i := 0; i < n; i++ {
 			k := keys[(start+i*3)%len(keys)]
+			if repeatKeys {
+				k = keys[(start+rapid.IntRange(0, 3).Draw(rt, "keyIdx"))%len(keys)]
+			}
 			dup := false
 			for _, p := range parts {
 				if strings.HasPrefix(p, k+":") {
 					dup = true
 				}
 			}
-			if dup {
+			if dup && !repeatKeys {
 				continue
 			}
-			tag := fmt.Sprintf("o%d-%s", o, k)
+			tag := fmt.Sprintf("o%d-%s-%d", o, k, i)
 			order = append(order, tag)
 			parts = append(parts, fmt.Sprintf("%s: t(\"%s\", %d)", k, tag, 10*o+i))
 		}
@@ -127,6 +137,12 @@ func TestC13(t *testing.T) {
 	Main(t, "C13", func(c *Ctx) {
 		c.OnReplay("determinism", func(s *Sub, rp *Replay) {
 			c.c13Program(s, "replay", seedProg{Src: rp.Source, Stdin: rp.Stdin, Kind: "replay"}, 30, 6, true)
+		})
+		c.OnReplay("order", func(s *Sub, rp *Replay) {
+			mc := c.runModelCase(s, rp.Source, "", model.Options{MaxSteps: 60000}, judgeOpts{checkLine: true, checkKind: true})
+			if mc.Sig != "" {
+				s.Violation(mc.replay("order"))
+			}
 		})
 		c.ReplayTier()
 		nBatch, nCLI := 5, 3
